@@ -13,8 +13,8 @@ import (
 	"github.com/renbou/grpcbridge/internal/rpcutil"
 	"google.golang.org/genproto/googleapis/api/annotations"
 	"google.golang.org/grpc/codes"
-	reflectionpb "google.golang.org/grpc/reflection/grpc_reflection_v1"
 	"google.golang.org/grpc/metadata"
+	reflectionpb "google.golang.org/grpc/reflection/grpc_reflection_v1"
 	"google.golang.org/grpc/status"
 	"google.golang.org/protobuf/proto"
 	"google.golang.org/protobuf/types/descriptorpb"
@@ -111,7 +111,7 @@ type Server struct {
 	// fault injection for the NEXT poll(s): fail at step k of a stream (0 open, 1 list, 2.. k-th request), with a code
 	FailStep int // -1 none
 	FailCode codes.Code
-	Hang     bool // the failing step hangs until the context ends instead of returning an error
+	Hang     bool          // the failing step hangs until the context ends instead of returning an error
 	Gate     chan struct{} // if non-nil, every Recv waits for a token (used to hold a poll open)
 	Streams  int
 	Methods  []string
